@@ -66,6 +66,8 @@ ASSUMPTIONS = [
     "soft pseudo-label tables have a unique row maximum (gap > 1e-4) and moderate values (no probability below 1e-4), tau >= 0.5; top-k ties at the k-th value count as admissible",
     "SemiWrapper's count is floor(percent * n) evaluated in float64 or exactly; both are accepted",
     "the caller does not modify returned bulk lists; bulk results are compared numerically (list / ndarray / tensor all accepted)",
+    "thresholds other than 0 / 1 keep a distance of 1e-5 from every row confidence (row-wise vs table-wise softmax may differ in the last digit)",
+    "in-place edits of wrapped labels are observed through leaves whose bulk accessor hands out their own list / ndarray / tensor (as KDRandomClassWrapper.getall_class does); leaves returning copies cannot show them",
     "encoded vectors: tolerance 1e-5 on the sum, 1e-7 on sign and on the arg-max comparison (float32 arithmetic)",
 ]
 MONITORS = ["bulk_vs_item_checked", "range_checked", "other_items_checked", "wrapped_labels_checked", "history_queries_checked",
@@ -189,6 +191,8 @@ def _gen_layer(rng, kind, n, dim, unl):
         if form == "topk":
             L.update(topk=rng.choice([1, dim, rng.randint(1, dim)]), tau=rng.choice([None, "inf", 0.5, 1.0, 2.0, 5.0]),
                      seed=rng.choice([0, 1, rng.randrange(10 ** 6)]))
+            if isinstance(L["tau"], float):
+                L["scale"] = min(L["scale"], 3 * L["tau"])  # tempered weights stay above 1e-4 (float32 weights go into a float64 multinomial)
         return L, dim, unl_out
     if kind == "randomclass":
         mode = rng.choice(["random", "randperm", "gatherbug"] if n >= 1 else ["random", "randperm"])
@@ -232,7 +236,7 @@ def _allowed_second(kind1, layer1, n, dim, unl):
 
 
 def gen_cases(run):
-    total = run.n(4200, 400000)
+    total = run.n(4200, 256000)
     rng = run.rng
     for i in range(total):
         kind = KINDS[i % len(KINDS)] if i < 6 * len(KINDS) else rng.choice(KINDS)
@@ -310,15 +314,22 @@ def _pseudo_table(L, n, dim):
 
 
 def _threshold(L, table):
+    """threshold of a 'thr' table: the extremes 0 / 1 as given; anything else is kept at least 1e-5 away from every
+    row confidence, so that a row-wise and a table-wise softmax (last-digit differences) cannot disagree about it"""
     thr = L["thr"]
-    if thr != "q":
-        return float(thr)
-    if len(table) == 0:
-        return 0.5
+    if thr in (0.0, 1.0) or len(table) == 0:
+        return 0.5 if thr == "q" else float(thr)
     mx = sorted(table.softmax(dim=1).max(dim=1).values.tolist())
-    j = min(int(L["q"] * len(mx)), len(mx) - 1)
-    lo = mx[j - 1] if j > 0 else mx[0] - 0.05
-    return (lo + mx[j]) / 2  # strictly between two observed confidences (or below all)
+    if thr == "q":
+        j = min(int(L["q"] * len(mx)), len(mx) - 1)
+        lo = mx[j - 1] if j > 0 else mx[0] - 0.05
+        thr = (lo + mx[j]) / 2  # between two observed confidences (or below all)
+    thr = float(thr)
+    for _ in range(200):
+        if all(abs(c - thr) >= 1e-5 for c in mx):
+            break
+        thr += 1e-4
+    return thr
 
 
 def _describe(L):
